@@ -34,7 +34,8 @@ BOUNDS_TEXT = ("every message of 0, 7, 11 bytes and of 12 + k bytes with the fou
                "bytes fully symbolic: k <= 1 (quick) / 2 (thorough) with id and flag bytes fully symbolic, k = 2 / 3 "
                "with the id bytes symbolic, k <= body with a fixed id/flags pattern; plus one "
                "answer record at the root name with fully symbolic type (0..255), rdlength low byte and <= rd "
-               "symbolic rdata bytes (reaches every Record_*.decode)")
+               "symbolic rdata bytes (reaches every Record_*.decode); plus, for each of the 27 record classes, a valid "
+               "message (query, answer, authority copy with compression) from the real encoder cut at every position")
 OUTSIDE = ["more than `body` bytes after the header / section counts above 2 (the loops are the same; longer inputs "
            "only add iterations)", "record payloads longer than `rd` bytes and record types above 255",
            "what the protocols do with the decoded message (controller callbacks)",
@@ -174,10 +175,63 @@ def rdata(typ: str, rdlen: str, body: str) -> bool:
     return True
 
 
+def _wires():
+    """one complete, valid message per record class, produced by the REAL encoder of the tree under test:
+    a query, an answer and an authority record (the second copy is written with compression pointers)"""
+    from twisted.names import dns
+    n = b"ex.org"
+    recs = [
+        dns.Record_A("1.2.3.4"), dns.Record_NS(b"ns.ex.org"), dns.Record_MD(b"md.ex.org"), dns.Record_MF(b"mf.ex.org"),
+        dns.Record_CNAME(b"c.ex.org"), dns.Record_SOA(b"ns.ex.org", b"root.ex.org", 2024010101, 7200, -1, 1209600, 3600),
+        dns.Record_MB(b"mb.ex.org"), dns.Record_MG(b"mg.ex.org"), dns.Record_MR(b"mr.ex.org"), dns.Record_NULL(b"payload"),
+        dns.Record_WKS("1.2.3.4", 6, b"\x01\x02\x03"), dns.Record_PTR(b"p.ex.org"), dns.Record_HINFO(b"cpu", b"os"),
+        dns.Record_MINFO(b"r.ex.org", b"e.ex.org"), dns.Record_MX(10, b"mx.ex.org"), dns.Record_TXT(b"hello", b"", b"w"),
+        dns.Record_RP(b"m.ex.org", b"t.ex.org"), dns.Record_AFSDB(1, b"h.ex.org"), dns.Record_AAAA("2001:db8::1"),
+        dns.Record_SRV(1, 2, 443, b"t.ex.org"), dns.Record_NAPTR(100, 10, b"u", b"sip+E2U", b"!^.*$!sip:x@ex.org!", b"r.ex.org"),
+        dns.Record_A6(64, "::1:2", b"pfx.ex.org"), dns.Record_DNAME(b"d.ex.org"), dns.Record_SSHFP(1, 1, b"\x01" * 20),
+        dns.Record_SPF(b"v=spf1 -all"),
+        dns.Record_TSIG(b"hmac-md5.sig-alg.reg.int", 1700000000, 300, b"\x07" * 16, 4660, 0, b"od"),
+        dns.UnknownRecord(b"opaque"),
+    ]
+    out = []
+    for r in recs:
+        typ = r.TYPE if r.TYPE is not None else 65280
+        m = dns.Message(id=0x1234, answer=1, recDes=1, maxSize=0)
+        m.queries = [dns.Query(n, typ, dns.IN)]
+        m.answers = [dns.RRHeader(n, typ, dns.IN, 300, r)]
+        m.authority = [dns.RRHeader(b"www.ex.org", typ, dns.IN, 86400, r)]
+        out.append((type(r).__name__, m.toStr().decode("latin-1")))
+    return out
+
+
+WIRES = _wires()
+NW = len(WIRES)
+
+
+def cutrec(ti: int, k: int) -> bool:
+    """
+    pre: 0 <= ti < NW and 0 <= k
+    post: _
+    """
+    # a valid message cut at EVERY position (one path per record class and cut position)
+    wire = WIRES[c32._bisect_value(ti, 0, NW - 1)][1]
+    kk = len(wire) if k >= len(wire) else c32._bisect_value(k, 0, len(wire))
+    r, m = _decode(wire[:kk])
+    api.obs((kk, r, len(m.answers), len(m.authority)))
+    cover()
+    if kk == len(wire):
+        return r == "ok" and len(m.queries) == 1 and len(m.answers) == 1 and len(m.authority) == 1
+    if kk < 12:
+        return r == "allowed"
+    return len(m.queries) <= 1 and len(m.answers) <= 1 and len(m.authority) <= 1
+
+
 _TGROUPS = ["ord(typ) < 12", "12 <= ord(typ) < 20", "20 <= ord(typ) < 40", "40 <= ord(typ)"]
 HARNESSES = [
     H(short, shards=[("len(data) == 0",), ("len(data) == 7",), ("len(data) == 11",)]),
     H(total, shards=_total_shards, timeout={"quick": 120, "thorough": 1500}),
+    H(cutrec, shards=[("%d <= ti < %d" % (g, min(g + 7, NW)),) for g in range(0, NW, 7)],
+      timeout={"quick": 120, "thorough": 600}),
     H(rdata, shards=lambda tier: [("len(body) == %d" % k, g) for k in range(0, BOUNDS[tier]["rd"] + 1) for g in _TGROUPS
                                   if k > 0 or g == _TGROUPS[0]] + [("len(body) == 0", "ord(typ) >= 12")],
       timeout={"quick": 120, "thorough": 1500}),
@@ -191,6 +245,8 @@ VECTORS = {
               (1, "\xc0\x0e\x00\x00", "\x02\x01\x01\x02", "\xc0\x00\xc0\x0c"),
               (0, "", "\x01\x00\x00\x00", "\x01a\x00\x00"), (2, "\xc0\x0c\x00\x00", "\x00\x01\x00\x00", "\xc0\x00\x00\x00"),
               (0, "abcd", "\x02\x02\x02\x02", "\xc0\x0d\xc0\x0c")],
+    "cutrec": [(0, 0), (0, 11), (0, 30), (5, 60), (5, 75), (5, 10 ** 6), (15, 50), (20, 70), (25, 90), (26, 40), (21, 55),
+               (10, 45), (23, 44)],
     "rdata": [("\x01", "\x04", "\x01\x02\x03\x04"), ("\x10", "\x03", "\x02hi"), ("\x10", "\x05", "\x02hi"),
               ("\x0b", "\x00", ""), ("\x26", "\x01", "\xff"), ("\x2c", "\x01", "a"), ("\xfa", "\x02", "\x00\x00"),
               ("\x02", "\x02", "\xc0\x0c"), ("\x02", "\x02", "\xc0\x19"), ("\x63", "\x02", "\x05ab"), ("\xff", "\x03", "abc")],
